@@ -69,20 +69,24 @@ Section P.
     inversion H; subst. apply str_eqb_eq. exact E.
   Qed.
 
-  Lemma sp_load_valid : forall f i d, sp_load f i = Ok d -> cid d = i.
+  Lemma sp_load_valid : forall f i d, sp_load f i = Ok d -> cid d = i /\ d <> JNull.
   Proof.
     intros f i d H. unfold Cache.sp_load in H.
-    assert (V : forall v, (if str_eqb (Cache.cid frepr v) i then Ok v else Err EJobsCorrupted) = Ok d -> cid d = i).
-    { intros v Hv. destruct (str_eqb (Cache.cid frepr v) i) eqn:E; [|discriminate]. inversion Hv; subst.
-      apply str_eqb_eq. exact E. }
-    destruct (get f (spf i)) as [[c|]|]; [|discriminate|eauto].
+    assert (V : forall v, match v with
+                          | JNull => Err EJobsCorrupted
+                          | _ => if str_eqb (Cache.cid frepr v) i then Ok v else Err EJobsCorrupted
+                          end = Ok d -> cid d = i /\ d <> JNull).
+    { intros v Hv. destruct v; try discriminate Hv;
+        (destruct (str_eqb (Cache.cid frepr _) i) eqn:E; [|discriminate Hv]; inversion Hv; subst;
+         split; [apply str_eqb_eq; exact E|discriminate]). }
+    destruct (get f (spf i)) as [[c|]|]; [|discriminate|discriminate].
     destruct (loads_b (c_bytes c)); try discriminate. eauto.
   Qed.
 
   Lemma sp_load_view_valid : forall f i d v, sp_load_view f i = Ok (d, v) -> cid d = i.
   Proof.
     intros f i d v H. unfold Cache.sp_load_view in H. destruct (sp_load f i) as [d'|] eqn:E; [|discriminate].
-    destruct (sp_view d'); [|discriminate]. inversion H; subst. eapply sp_load_valid; eauto.
+    destruct (sp_view d'); [|discriminate]. inversion H; subst. exact (proj1 (sp_load_valid _ _ _ E)).
   Qed.
 
   Lemma get_statepoint_sound : forall f s i s' r,
@@ -91,7 +95,7 @@ Section P.
     intros f s i s' r H E. unfold Cache.get_statepoint in E.
     pose proof (ensure_read_sound f s H) as H1.
     destruct (alookup i (s_cache (ensure_read f s))); [inversion E; subst; auto|].
-    destruct (sp_from_ws f true i) eqn:Ew; inversion E; subst; auto.
+    destruct (sp_from_ws f true i) eqn:Ew; cbv iota in E; inversion E; subst; auto.
     apply sound_reg; auto. eapply sp_from_ws_valid; eauto.
   Qed.
 
@@ -108,8 +112,7 @@ Section P.
         pose proof (json_write_ws_only _ _ _ _ _ Ew) as W2.
         destruct (sp_load_view f2 (Cache.cid frepr sp)) as [[d v]|]; inversion H; subst; eapply ws_only_trans; eauto.
       + destruct (sp_load_view f1 (Cache.cid frepr sp)) as [[d v]|]; inversion H; subst; auto.
-    - destruct (makedirs f (jdir (Cache.cid frepr sp))) eqn:Em; inversion H; subst; [|apply ws_only_refl].
-      eapply makedirs_ws_only; eauto.
+    - inversion H; subst. apply ws_only_refl.
   Qed.
 
   Lemma jinit_sound : forall force f s sp f' s' r,
@@ -123,7 +126,7 @@ Section P.
                 then json_write frepr f1 (spf (Cache.cid frepr sp)) sp else FOk f1) as [f2|]; [|inversion H; subst; auto].
       destruct (sp_load_view f2 (Cache.cid frepr sp)) as [[d v]|] eqn:El; inversion H; subst; auto.
       apply sound_reg; auto. eapply sp_load_view_valid; eauto.
-    - destruct (makedirs f (jdir (Cache.cid frepr sp))); inversion H; subst; auto.
+    - inversion H; subst; auto.
   Qed.
 
   Lemma Inv_ws_only : forall f f' s', file_sound f -> ws_only f f' -> sound (s_cache s') -> Inv f' s'.
